@@ -33,9 +33,6 @@ def _calls_named(fn: Func, name: str) -> List[ast.Call]:
 
 def check(ck: Checker) -> None:
     _lints(ck, "C19.aliasing", "hashfile.tree")
-    from . import round4 as _r4
-
-    _r4.merge_loads_strict(ck, "C19.digest")
     prog, res = ck.prog, ck.res
     ck.decided = [
         "C19.conflict: _merge returns a combined result only across 'diff(patch(ours+theirs), patch(theirs+ours)) is empty', both applied to the same ancestor; the early returns hand back the other side exactly when this side's diff is empty; both per-side diffs are taken against the ancestor under the caller's policy",
@@ -138,6 +135,10 @@ def check(ck: Checker) -> None:
     _errors(ck, mg, g, patches)
     _policy(ck, df)
     _digest(ck)
+    from . import round4 as _r4
+
+    _r4.merge_loads_strict(ck, "C19.digest")
+
 
 
 def _errors(ck: Checker, mg: Func, g, patches) -> None:
